@@ -926,7 +926,11 @@ func (x *c16Runner) directionA(k *c16Case) {
 			continue
 		}
 		split := isSplit[id]
+		x.jsonTree(k, id, raw)
 		jt, err := c16CanonText(raw, false)
+		if split {
+			jt, err = c16CanonTopOrdered(raw)
+		}
 		if err != nil {
 			continue
 		}
@@ -948,6 +952,7 @@ func (x *c16Runner) directionA(k *c16Case) {
 			if b, err := e.(json.Marshaler).MarshalJSON(); err == nil {
 				realJ, _ = c16CanonText(b, false)
 			}
+			x.textLegExp(k, id, e)
 		}
 		sflag := "0"
 		if split {
@@ -976,6 +981,22 @@ func (x *c16Runner) directionA(k *c16Case) {
 					Impl:  realJ, Expect: want})
 				continue
 			}
+		}
+		if !split {
+			hazardInt := false
+			for _, f := range k.Feats {
+				hazardInt = hazardInt || strings.HasPrefix(f, "int-")
+			}
+			x.ask([]string{"C16.jwt", tt, jt}, func(rep string) {
+				r.hist("A_model_jwt_" + strings.ReplaceAll(rep, " ", "_"))
+				// type-directed generated values have the shape of their parameter's type: the hypothesis
+				// of convert_wt must hold on them, and then the conversion is well-typed
+				if !hazardInt && !k.FromCorps && rep != "true true true" {
+					r.violate(Violation{Kind: "correspondence", Key: kk.key("A-hypothesis-jwt"),
+						What:  "the typing hypothesis of convert_wt (jWt, jIntsOk) or its conclusion (wt of the conversion) is false on a type-directed generated argument: " + rep,
+						Input: map[string]interface{}{"param": idS, "type": tt, "json": rawS}, Broken: "convert_wt"})
+				}
+			})
 		}
 		x.ask([]string{"C16.binding", sflag, tt, jt}, func(rep string) {
 			parts := strings.Split(rep, " | ")
@@ -1047,6 +1068,7 @@ func (x *c16Runner) directionA(k *c16Case) {
 			Input: k.input(), Impl: src})
 		return
 	}
+	x.textLegCall(k, &inv, src)
 	if !allPrintable {
 		r.violate(Violation{Kind: "correspondence", Key: k.key("printable-model-mismatch"),
 			What:  "model says a split binding is not expressible in MRO text, yet the generated source parsed",
@@ -1146,6 +1168,16 @@ func (x *c16Runner) directionB(k *c16Case, params []c16Field, bound map[string]*
 			What: "MRO call text -> invocation JSON loses information: " + msg, Input: k.input(), Impl: string(b)})
 		return
 	}
+	compiles := false
+	c16Recover(func() {
+		_, _, _, cerr := syntax.ParseSourceBytes([]byte(k.Src), "call.mro", k.MroPaths, false)
+		compiles = cerr == nil
+	})
+	if compiles {
+		r.hist("B_call_compiles")
+	} else {
+		r.hist("B_call_does_not_compile")
+	}
 	// model: encode on the expression the real parser built (struct flags included)
 	if ast, perr := new(syntax.Parser).UncheckedParseIncludes([]byte(k.Src), "", k.MroPaths); perr == nil && ast.Call != nil {
 		_, lookup, _ := core.GetCallableFrom(k.Sig.Callable, "decl.mro", k.MroPaths)
@@ -1172,23 +1204,25 @@ func (x *c16Runner) directionB(k *c16Case, params []c16Field, bound map[string]*
 						Impl:  realJ, Model: rep, Broken: "correspondence C16.encode (Martian.Invocation.encode)"})
 				}
 			})
-			// well-typedness of the literal as the model defines it (non-vacuity of convert_encode)
-			if callable != nil {
+			// the hypothesis of convert_encode_partial / binding_roundtrip_partial (wt at the parameter's type for a plain
+			// binding, splitOperandOk for a split one) must HOLD on every binding of a call the real
+			// compiler accepts: otherwise the theorem does not cover an input the runs cover
+			if callable != nil && compiles {
 				for _, p := range callable.GetInParams().List {
 					if p.GetId() != b.Id {
 						continue
 					}
-					tid := p.GetTname()
-					if s, ok := b.Exp.(*syntax.SplitExp); ok {
-						if _, isArr := s.Value.(*syntax.ArrayExp); isArr {
-							tid.ArrayDim++
-						} else if tid.MapDim == 0 {
-							tid.MapDim, tid.ArrayDim = tid.ArrayDim+1, 0
+					tt := c16TyTok(lookup, p.GetTname(), 0)
+					at := c16ArgTok(b.Exp)
+					pid := b.Id
+					x.ask([]string{"C16.bindok", tt, at}, func(rep string) {
+						r.hist("B_model_bindok_" + strings.ReplaceAll(rep, " ", "_"))
+						if rep != "true true" {
+							r.violate(Violation{Kind: "correspondence", Key: kk.key("B-hypothesis-wt"),
+								What:   "the typing hypothesis of binding_roundtrip_partial (wt / splitOperandOk, intsOk) is false on a binding of a call the real compiler accepts: " + rep,
+								Input:  map[string]interface{}{"param": pid, "type": tt, "binding": at, "case": kk.input()},
+								Broken: "binding_roundtrip_partial / convert_encode_partial (hypothesis wt / splitOperandOk)"})
 						}
-					}
-					tt := c16TyTok(lookup, tid, 0)
-					x.ask([]string{"C16.wt", tt, et}, func(rep string) {
-						r.hist("B_model_wt_" + strings.ReplaceAll(rep, " ", "_"))
 					})
 				}
 			}
@@ -1316,11 +1350,27 @@ func (x *c16Runner) genCase(sig *c16Sig) (*c16Case, map[string]*c16Val) {
 		}
 		bound[p.Name] = v
 		js := v.JSON()
+		written := ""
 		if split {
-			js = `{"split": ` + js + `}`
+			inner := js
+			js = `{"split": ` + inner + `}`
 			splits = append(splits, p.Name)
+			// the key is matched the way encoding/json matches a struct field: case-folded
+			// (incl. U+017F), and of several matching members the LAST one wins
+			switch c.Rng.Intn(12) {
+			case 0:
+				written = `{"` + []string{"Split", "SPLIT", "sPlIt", "ſplit", "\u0073plit"}[c.Rng.Intn(5)] + `": ` + inner + `}`
+				x.r.hist("case_split_key_folded")
+			case 1:
+				written = `{"split": ` + []string{"null", "[]", "3", `{"x": 1}`}[c.Rng.Intn(4)] + `, "` +
+					[]string{"split", "Split", "SPLIT"}[c.Rng.Intn(3)] + `": ` + inner + `, "other": 1}`
+				x.r.hist("case_split_key_duplicated")
+			}
 		}
-		args = append(args, fmt.Sprintf("%q: %s", p.Name, js))
+		if written == "" {
+			written = js
+		}
+		args = append(args, fmt.Sprintf("%q: %s", p.Name, written))
 		if t, err := c16CanonText([]byte(js), true); err == nil {
 			k.Expect[p.Name] = t
 		} else {
@@ -1937,7 +1987,7 @@ func runC16(c *Ctx) {
 	nsig, per := 160, 16
 	nflt := 20000
 	if c.Thorough {
-		nsig, per, nflt = 3600, 24, 400000
+		nsig, per, nflt = 3000, 24, 400000
 	}
 	x.floats(nflt)
 	nstr := 1500
@@ -1945,6 +1995,11 @@ func runC16(c *Ctx) {
 		nstr = 15000
 	}
 	x.strs(nstr)
+	nbytes := 1500
+	if c.Thorough {
+		nbytes = 20000
+	}
+	x.bytesAll(nbytes)
 	for i := 0; i < nsig; i++ {
 		sig := c16GenSig(c, i)
 		if err := sig.write(); err != nil {
